@@ -9,6 +9,8 @@ import (
 
 	"github.com/xinchentechnote/fin-proto-go/codec"
 	"github.com/xinchentechnote/fin-proto-go/zzverif/vrt"
+
+	"verif/engine/ev"
 )
 
 // ---- registry operations and the sequential reference model (a plain map) ----
@@ -355,4 +357,65 @@ func c19Scenarios(thorough bool) []*scenario {
 		}
 	}
 	return out
+}
+
+// sequentialRegistryModel: the single-threaded behaviour of the registry against the map model over a name alphabet
+// with case- and space-variants ("A", "a", "A ", ""): every operation sequence up to the given depth.  Names that a
+// human would call "the same" must still be different keys, and one name must never answer for another.
+func sequentialRegistryModel(res *shardResult, depth int) {
+	names := []string{"A", "a", "A ", ""}
+	var ops []regOp
+	id := 20
+	for _, n := range names {
+		ops = append(ops, regOp{"reg", n, id}, regOp{"reg", n, id + 1}, regOp{"get", n, 0}, regOp{"rem", n, 0})
+		id += 2
+	}
+	ops = append(ops, regOp{"clear", "", 0})
+	seq := make([]regOp, 0, depth)
+	var rec func() bool
+	rec = func() bool {
+		if len(seq) > 0 {
+			codec.Clear()
+			m := map[string]string{}
+			res.Extra["sequential_registry_sequences"]++
+			for i, o := range seq {
+				got, want := applyReal(o), applyModel(m, o)
+				if got != want {
+					res.Violations = append(res.Violations, seqRegViolation(seq[:i+1], fmt.Sprintf("%s returned %q, the map model says %q", o, got, want)))
+					return false
+				}
+			}
+			for _, n := range names {
+				o := regOp{"get", n, 0}
+				if got, want := applyReal(o), applyModel(m, o); got != want {
+					res.Violations = append(res.Violations, seqRegViolation(seq, fmt.Sprintf("afterwards %s returned %q, the map model says %q", o, got, want)))
+					return false
+				}
+			}
+		}
+		if len(seq) == depth {
+			return true
+		}
+		for _, o := range ops {
+			seq = append(seq, o)
+			ok := rec()
+			seq = seq[:len(seq)-1]
+			if !ok {
+				return false
+			}
+		}
+		return true
+	}
+	rec()
+	codec.Clear()
+}
+
+func seqRegViolation(seq []regOp, detail string) *ev.Violation {
+	var parts []string
+	for _, o := range seq {
+		parts = append(parts, fmt.Sprintf("%s[%q]", o.Kind, o.Name))
+	}
+	return &ev.Violation{Property: "C19", Kind: "sequential-model-mismatch", Subject: "registry " + firstWords(detail, 4),
+		Detail: "single-threaded sequence " + strings.Join(parts, " ") + ": " + detail,
+		Replay: map[string]any{"op": "registry-sequence", "sequence": parts}}
 }
